@@ -81,15 +81,27 @@ func vpH_C12_fail() {
 	_, err := run(&ref)
 	vpMust(err, "fault-free run")
 	total := uint64(ref.Len())
-	fw := &vpFailWriter{limit: vpRange("k", 0, total+1), partial: vpChoice("partial", 2)}
-	n, err := run(fw)
-	if fw.failed {
-		vpAssert(err != nil, "a failing writer is reported as an error")
-		vpReach("C12 failed write")
+	partial := vpChoice("partial", 2)
+	try := func(k uint64) {
+		fw := &vpFailWriter{limit: k, partial: partial}
+		n, err := run(fw)
+		if fw.failed {
+			vpAssert(err != nil, "a failing writer is reported as an error")
+			vpReach("C12 failed write")
+		} else {
+			vpAssert(err == nil, "no error when the writer never failed")
+			vpAssert(uint64(n) == total && bytes.Equal(fw.buf.Bytes(), ref.Bytes()), "complete, identical file when the writer never failed")
+			vpReach("C12 clean write")
+		}
+	}
+	if vpSymbolic() {
+		try(vpRange("k", 0, total+1))
 	} else {
-		vpAssert(err == nil, "no error when the writer never failed")
-		vpAssert(uint64(n) == total && bytes.Equal(fw.buf.Bytes(), ref.Bytes()), "complete, identical file when the writer never failed")
-		vpReach("C12 clean write")
+		// byte offsets do not transfer between the engine (zstd model) and the
+		// real codec (other section sizes): natively every offset is swept
+		for k := uint64(0); k <= total+1; k++ {
+			try(k)
+		}
 	}
 	vpReach("C12 fail end")
 }
@@ -127,15 +139,24 @@ func vpH_C12_cancel() {
 	_, _, err := mergeSegmentBasesWriter(segs, drops, &ref, 1025, nil)
 	vpMust(err, "fault-free merge")
 	total := uint64(ref.Len())
-	cw := &vpCloseWriter{k: vpRange("k", 0, total+1), ch: make(chan struct{})}
-	cw.check() // k == 0: closed before the merge starts
-	_, n, err := mergeSegmentBasesWriter(segs, drops, cw, 1025, cw.ch)
-	if err != nil {
-		vpAssert(err == segment.ErrClosed, "a cancelled merge returns ErrClosed")
-		vpReach("C12 cancelled")
+	try := func(k uint64) {
+		cw := &vpCloseWriter{k: k, ch: make(chan struct{})}
+		cw.check() // k == 0: closed before the merge starts
+		_, n, err := mergeSegmentBasesWriter(segs, drops, cw, 1025, cw.ch)
+		if err != nil {
+			vpAssert(err == segment.ErrClosed, "a cancelled merge returns ErrClosed")
+			vpReach("C12 cancelled")
+		} else {
+			vpAssert(n == total && bytes.Equal(cw.buf.Bytes(), ref.Bytes()), "success only with the complete, correct file")
+			vpReach("C12 completed")
+		}
+	}
+	if vpSymbolic() {
+		try(vpRange("k", 0, total+1))
 	} else {
-		vpAssert(n == total && bytes.Equal(cw.buf.Bytes(), ref.Bytes()), "success only with the complete, correct file")
-		vpReach("C12 completed")
+		for k := uint64(0); k <= total+1; k++ { // see vpH_C12_fail
+			try(k)
+		}
 	}
 	vpReach("C12 cancel end")
 }
